@@ -138,7 +138,8 @@ def untilStop (ks : List Kind) (self : Nat) : G :=
 
 /-- `AstBinaryOp` -/
 def binNode (l op r : Tree) : Tree :=
-  mk "bin_op" op.ident (Range.span l.rng r.rng) [l, r] ["op=" ++ encRng op.rng, "opkind=" ++ op.kind]
+  mk "bin_op" op.ident (Range.span l.rng r.rng) [l, r]
+    ((if op.kind == "Dot" then ["dot"] else []) ++ ["op=" ++ encRng op.rng])
 
 /-- right operand of a dangling `.`: `AstEmpty` -/
 def danglingRight (op c : Tree) : Tree :=
